@@ -1,5 +1,5 @@
 import QV.C02.LemmasTop
-import QV.C02.LemmasKinds3
+import QV.C02.LemmasDelay
 /-!
 C02 lemmas, part 6 (core Lean only): the proved subset `provedKind` — dispatch of the per-kind lemmas, "prints
 on one line", "prints without error".
@@ -41,6 +41,8 @@ theorem rt_of_provedKind (F : NumFmt) (d : Nat) (i : Instruction) (hp : parsedIn
   | shiftFrequency a => exact rt_shiftFrequency F d a hp hn hd
   | shiftPhase a => exact rt_shiftPhase F d a hp hn hd
   | swapPhases a => exact rt_swapPhases F d a hp
+  | delay a => exact rt_delay F d a hp hn hd
+  | rawCapture a => exact rt_rawCapture F d a hp hn (by simpa [provedKind] using hk) hd
   | _ => simp [provedKind] at hk
 
 theorem nl_intToks (v : Int) : Token.newLine ∉ intToks v := by
@@ -163,6 +165,14 @@ theorem noNL_of_provedKind (F : NumFmt) (i : Instruction) (hk : provedKind i = t
   | shiftFrequency a => simp only [numTokInstr] at hn; simp [toks, cmd, nl_frame, nl_printTop F _ hn]
   | shiftPhase a => simp only [numTokInstr] at hn; simp [toks, cmd, nl_frame, nl_printTop F _ hn]
   | swapPhases a => simp [toks, cmd, nl_frame]
+  | delay a =>
+    simp only [numTokInstr, Bool.and_eq_true] at hn
+    simp only [toks, delayToks, cmd, List.mem_cons, List.mem_append, List.mem_map, not_or, not_exists, not_and]
+    refine ⟨by simp, ⟨nl_qubits _, fun s _ => by simp [strTok]⟩, nl_wrapIf _ _ (nl_printTop F _ hn.1)⟩
+  | rawCapture a =>
+    simp only [numTokInstr] at hn
+    by_cases hb : a.blocking = true <;>
+      simp [toks, cmd, hb, nl_frame, nl_printTop F _ hn, nl_memRefToks]
   | declaration a =>
     obtain ⟨name, ⟨ty, len⟩, sharing⟩ := a
     have h1 : ¬ Token.newLine = scalarTok ty := fun h => nl_scalar ty h.symm
@@ -237,6 +247,9 @@ theorem firstErr_none_of_provedKind (i : Instruction) (hp : parsedInstr i = true
   | swapPhases a =>
     simp only [parsedInstr, frameOk, Bool.and_eq_true] at hp
     simp [firstErr, frameErr, firstSome, qubitsErr_none _ hp.1.2, qubitsErr_none _ hp.2.2]
+  | delay a => simp only [parsedInstr, Bool.and_eq_true] at hp; simp [firstErr, qubitsErr_none _ hp.2]
+  | rawCapture a =>
+    simp only [parsedInstr, frameOk, Bool.and_eq_true] at hp; simp [firstErr, frameErr, qubitsErr_none _ hp.1.2]
   | _ => first | rfl | (simp [provedKind] at hk)
 
 theorem length_toks_le_programRaw (F : NumFmt) (L : List Instruction) (i : Instruction) (hi : i ∈ L) :
